@@ -119,7 +119,9 @@ def judge_comb(case, ctx):
         binner = A.prtpy.BinnerKeepingSums()
         want = O.all_pairings_sums(list(map(float, b1)), list(map(float, b2)))
         try:
-            got = [list(map(float, nb)) for nb in binner.all_combinations(np.array(b1, dtype=float), np.array(b2, dtype=float))]
+            as_list = case.get("as_list", False)       # the doctest passes plain lists, the algorithms pass float arrays: both forms are driven
+            a1, a2 = (list(b1), list(b2)) if as_list else (np.array(b1, dtype=float), np.array(b2, dtype=float))
+            got = [list(map(float, nb)) for nb in binner.all_combinations(a1, a2)]
         except Exception as e:
             ctx.violation("exception", "all_combinations/sums", case, {"exc": repr(e)[:200]})
             return
@@ -141,7 +143,7 @@ def draw_comb(rng):
     pool = [rng.randint(0, 9) for _ in range(rng.randint(1, 4))]      # few distinct values -> ties between bins
     if manager == "sums":
         mk = lambda: sorted(rng.choice([0, rng.choice(pool), rng.choice(pool) + rng.choice(pool), rng.randint(0, 30)]) for _ in range(k))
-        return {"kind": "comb", "manager": manager, "bins1": mk(), "bins2": mk()}
+        return {"kind": "comb", "manager": manager, "bins1": mk(), "bins2": mk(), "as_list": rng.random() < 0.5}
     named = rng.random() < 0.5
     vmap = {}
     cnt = [0]
